@@ -258,6 +258,8 @@ func localEtag(p string) (string, bool) {
 	return fmt.Sprintf("%x%x", fi.ModTime().UnixNano(), fi.Size()), true
 }
 
+var badDepths = []string{"x", "0,1", "infinity,bogus", "1,noroot", "INFINITY", "2", "infinity,0", "-1", "0;x", "1.0"}
+
 var fsExtraHeaders = [][2]string{{"Content-MD5", "AAAAAAAAAAAAAAAAAAAAAA=="}, {"X-Expected-Entity-Length", "5"}, {"Content-Language", "en"}, {"Translate", "f"},
 	{"Accept-Encoding", "gzip"}, {"User-Agent", "Microsoft-WebDAV-MiniRedir/10.0.19045"}, {"Accept", "text/html"}, {"Cache-Control", "no-cache"}, {"Brief", "t"},
 	{"Prefer", "return=minimal"}, {"X-OC-Mtime", "1700000000"}, {"Connection", "close"}, {"Content-Disposition", "attachment; filename=\"other.txt\""}}
@@ -613,7 +615,7 @@ func universeRequests(thorough bool, salt int) []fsReq {
 		for _, ct := range []string{"", "application/xml", "text/plain"} {
 			rs = append(rs, fsReq{method: "MKCOL", path: p, ctype: ct, fault: -1})
 		}
-		for _, d := range []string{"", "0", "1", "infinity", "2"} {
+		for _, d := range []string{"", "0", "1", "infinity", "2", "0,1", "1,noroot", "infinity,bogus", "Infinity", "00"} {
 			rs = append(rs, fsReq{method: "PROPFIND", path: p, depth: d, fault: -1})
 			for _, pf := range []byte("anfom") {
 				n++
@@ -636,6 +638,10 @@ func universeRequests(thorough bool, salt int) []fsReq {
 				for _, depth := range []string{"", "0", "1", "infinity", "x"} {
 					for _, ow := range []string{"", "T", "F", "t"} {
 						n++
+						if depth == "x" {
+							// values that are not one of the three: also those that begin like one
+							depth = badDepths[n%len(badDepths)]
+						}
 						if !keep(n) && !(depth == "" && ow == "") && !(depth == "0" && ow == "F") {
 							continue
 						}
